@@ -71,7 +71,7 @@ class VUnit:
 
     def fn(self, file, name, impl=None, nth=0, ret=None, requires=(), ensures=(), loops=None, inserts=(),
            rules=(), subst=(), sig_subst=(), external_body=False, canary=True, rename=None, ret_type=None,
-           attrs='', body_override=None, decreases=None, opens_invariants=None, no_unwind=False, returns=None, post=(), opt_inserts=(), resubst=(), d5=None, sig_override=None, append=None, prepend=None, opt_subst=(), opt_rules=()):
+           attrs='', body_override=None, decreases=None, opens_invariants=None, no_unwind=False, returns=None, post=(), opt_inserts=(), resubst=(), d5=None, sig_override=None, append=None, prepend=None, opt_subst=(), opt_rules=(), isolate_loops=False, hint_inserts=()):
         """extract `fn name` and splice the contract. `rules`: names of rsx.rule_* to apply to the body.
         `subst`: [(literal, replacement, rulename)] literal body substitutions (each must match, logged as a rule).
         `loops`: {ordinal: 'invariant ..., decreases ..'} ; `inserts`: [(anchor, before|after|replace, text)]"""
@@ -131,6 +131,15 @@ class VUnit:
             body = '{\n' + prepend + '\n' + body.lstrip()[1:]
         if append:
             body = body.rstrip()[:-1] + '\n' + append + '\n}'
+        missing_hints = []
+        for anchor, where, text in hint_inserts:
+            # proof hints tied to one spelling of the code: if the anchor is gone the hint is dropped, and a failed obligation in this
+            # function is then reported as UNDECIDED (the proof may simply miss its hint), never as a violation
+            if body.count(anchor) == 1:
+                body = rsx.insert_at(body, anchor, where, text, name)
+            else:
+                missing_hints.append(anchor[:50])
+                fired.append('proof hint dropped (anchor %r gone)' % anchor[:40])
         for anchor, where, text in opt_inserts:
             # proof hints / type annotations that are only needed for one spelling of the code: skipped when the anchor is gone
             if body.count(anchor) == 1:
@@ -155,13 +164,16 @@ class VUnit:
         if decreases:
             clauses += '\n    decreases %s,\n' % decreases
         head = attrs + ('\n' if attrs else '')
+        # loops see the facts established before them about variables they do not modify: invariants only have to speak about
+        # what the loop changes, so introducing or renaming an unmodified local does not break the proof
+        li = '' if isolate_loops else '#[verifier::loop_isolation(false)]\n'
         if body_override is not None:
             body = body_override
         if external_body:
             main = head + '#[verifier::external_body]\n' + sig + clauses + '\n{ unimplemented!() }\n'
             self.trusted.append('external_body (contract assumed, body not verified): %s::%s%s' % (file, (impl + '::') if impl else '', name))
         else:
-            main = head + sig + clauses + '\n' + body + '\n'
+            main = head + li + sig + clauses + '\n' + body + '\n'
         can = ''
         cname = None
         if canary and requires:
@@ -171,6 +183,7 @@ class VUnit:
         # in the canary file the real function stays as a contract-only (external_body) declaration so callers type-check
         can_decl = head + '#[verifier::external_body]\n' + sig + clauses + '\n{ unimplemented!() }\n'
         it.rules = fired
+        it.missing_hints = missing_hints
         it.contract = {'requires': list(requires), 'ensures': list(ensures), 'loops': len(loops or {}),
                        'external_body': external_body}
         it.emit_name = rename or name
@@ -377,6 +390,10 @@ def check_unit(unit_builder, name, tier='quick'):
         it = meta.get('item')
         where = ('%s:%d fn %s' % (it.file, it.line, it.name)) if it is not None else ('spec/lemma text (%s)' % (meta.get('label') or 'raw'))
         src_line = gen_lines[e['line'] - 1].strip() if e['line'] and e['line'] <= len(gen_lines) else ''
+        if it is not None and getattr(it, 'missing_hints', None):
+            res['notes'].append('obligation failed in %s but its proof hints could not be placed (anchors %s no longer in the code): UNDECIDED, not a violation: %s' % (where, it.missing_hints, e['msg']))
+            res['hintless_failures'] = res.get('hintless_failures', 0) + 1
+            continue
         res['failures'].append({'engine': 'verus', 'unit': name, 'kind': e['msg'], 'function': where,
                                 'obligation': '%s: %s  [%s]' % (e['msg'], src_line[:200], where),
                                 'gen_line': e['line'], 'verifier_output': e['text'][:4000]})
